@@ -15,6 +15,10 @@ def sh(cmd, **kw):
 
 
 def main():
+    tier = "quick"
+    if "--tier" in sys.argv:
+        tier = sys.argv[sys.argv.index("--tier") + 1]
+        del sys.argv[sys.argv.index("--tier"):sys.argv.index("--tier") + 2]
     want = set(sys.argv[1:])
     kf = json.load(open(KF))
     todo = [e for e in kf["findings"] if e["status"] == "fixed" and not e.get("replay") and (not want or e["property"] in want)]
@@ -32,7 +36,7 @@ def main():
             env = dict(os.environ, WV_REPO_SRC=wt + "/src", WV_COLLECT="1", WV_COLLECT_DIR=cdir, WV_SKIP_REPLAYS="1",
                        TMPDIR=os.path.join(wt, ".tmp"), WV_SCRATCH_REPLAYS=os.path.join(wt, ".replays"), PYTHONWARNINGS="ignore")
             os.makedirs(env["TMPDIR"], exist_ok=True)
-            sh("%s/check %s --tier quick --no-evidence" % (ROOT, prop), env=env, cwd=ROOT)
+            sh("%s/check %s --tier %s --no-evidence" % (ROOT, prop, tier), env=env, cwd=ROOT)
             cands = sorted(glob.glob(os.path.join(cdir, "*.json")), key=os.path.getsize)
             kept = []
             for c in cands:
@@ -49,7 +53,7 @@ def main():
             if kept:
                 e["replay"] = kept[0]
                 json.dump(kf, open(KF, "w"), indent=1, sort_keys=True)
-            print(prop, commit, "replays:", kept or "none found at quick tier")
+            print(prop, commit, "replays:", kept or "none found at %s tier" % tier)
         finally:
             sh("git -C /repo worktree remove --force %s" % wt)
             shutil.rmtree(wt, ignore_errors=True)
